@@ -5,7 +5,10 @@
   on all 16 flag combinations. A change of either table in the Python source breaks this theorem.
 -/
 import PtaModel.Flags
+import PtaModel.Scan
+import PtaModel.Rule
 import Generated.Flags
+import Generated.Config
 namespace Pta.C12
 
 /-- all ten derived flags, model side -/
@@ -27,3 +30,25 @@ theorem generated_flags_agree :
   decide
 
 end Pta.C12
+
+namespace Pta.C13
+open Pta
+
+/-- the three shapes of an optional filter list as Python's truthiness sees them: `None`, `[]`, non-empty -/
+def listShapes : List (Option (List Filter)) := [none, some [], some [.name []]]
+
+/-- the configuration guards translated from /repo's pytestarch.py (`get_evaluable_architecture`) and rule.py
+    (`_assert_anything_only_used_with_should_not`, `_assert_required_configuration_present`) on every run equal the
+    model's guards, on all argument combinations -/
+theorem generated_config_agree :
+    (∀ ex rex eex reex xx : Bool,
+      Generated.entryImproper ex rex eex reex xx =
+        (entryOptionsError ⟨ex, rex, eex, reex, xx, true⟩ == some ErrKind.improperlyConfigured)) ∧
+    (∀ a n : Bool, Generated.anythingMisused a n = anythingMisused { anything := a, shouldNot := n }) ∧
+    (∀ s o n : Bool, ∀ d ∈ [none, some true, some false], ∀ ss ∈ listShapes, ∀ os ∈ listShapes,
+      Generated.configMissing s o n d.isNone
+          (match ss with | none => true | some l => l.isEmpty) (match os with | none => true | some l => l.isEmpty) =
+        configMissing { should := s, shouldOnly := o, shouldNot := n, importDir := d, subjects := ss, objects := os }) := by
+  decide
+
+end Pta.C13
